@@ -128,17 +128,18 @@ class _FuseConvPadBase(orp.RewriteRuleClassBase):
             )
 
         # Pad constraints: inputs
-        if (pads := pad_node.inputs[1]).const_value is None:
+        # An initializer that is also a graph input is only a default value.
+        if (pads := pad_node.inputs[1]).const_value is None or pads.is_graph_input():
             return check_result.fail(f"{pads.name} is not a constant/initializer.")
         if len(pad_node.inputs) > 2 and (constant_value := pad_node.inputs[2]) is not None:
-            if constant_value.const_value is None:
+            if constant_value.const_value is None or constant_value.is_graph_input():
                 return check_result.fail(
                     f"{constant_value.name} is not a constant/initializer."
                 )
             elif constant_value.const_value.numpy().item() != 0:
                 return check_result.fail(f"{constant_value.name} must be equal to 0.")
         if len(pad_node.inputs) > 3 and (axes := pad_node.inputs[3]) is not None:
-            if axes.const_value is None:
+            if axes.const_value is None or axes.is_graph_input():
                 return check_result.fail(f"{axes.name} is not a constant/initializer.")
             axes_list = [x if x >= 0 else x_rank + x for x in axes.const_value.numpy()]
         else:
